@@ -111,4 +111,278 @@ theorem crc32_one_byte (pre post : Bytes) (x y : UInt8) (h : x ≠ y) :
   have h2 := crcReg_injective_state post _ _ h1
   exact h (crcByte_injective_byte _ x y h2)
 
+/-! ### bursts: the register run backwards -/
+
+theorem crcBit_even (x : UInt32) (h : x.toNat % 2 = 0) : (crcBit x).toNat = x.toNat / 2 := by
+  unfold crcBit
+  have hm : (x &&& 1).toNat = x.toNat % 2 := by simp [UInt32.toNat_and]
+  have h0 : x &&& 1 = 0 := by apply UInt32.toNat_inj.mp; rw [hm, h]; rfl
+  simp [h0, UInt32.toNat_shiftRight, Nat.shiftRight_eq_div_pow]
+
+theorem crcBit_odd_big (x : UInt32) (h : x.toNat % 2 = 1) : 2147483648 ≤ (crcBit x).toNat := by
+  unfold crcBit
+  have hm : (x &&& 1).toNat = x.toNat % 2 := by simp [UInt32.toNat_and]
+  have h1 : x &&& 1 = 1 := by apply UInt32.toNat_inj.mp; rw [hm, h]; rfl
+  simp only [h1]
+  have hl := shr_lt x
+  have hx : ((x >>> 1) ^^^ crcPoly).toNat = (x >>> 1).toNat ^^^ crcPoly.toNat := by simp [UInt32.toNat_xor]
+  have hb : ((x >>> 1).toNat ^^^ crcPoly.toNat).testBit 31 = true := by
+    rw [Nat.testBit_xor]
+    have : (x >>> 1).toNat.testBit 31 = false := Nat.testBit_lt_two_pow (by simpa using hl)
+    rw [this]; decide
+  simp only [beq_self_eq_true, if_true]
+  rw [hx]
+  exact Nat.ge_two_pow_of_testBit hb
+
+/-- backward step: a register whose successor is below 2³¹ is twice that successor -/
+theorem crcBit_back (x : UInt32) (hv : (crcBit x).toNat < 2147483648) : x.toNat = 2 * (crcBit x).toNat := by
+  rcases Nat.mod_two_eq_zero_or_one x.toNat with h | h
+  · rw [crcBit_even x h]; omega
+  · have := crcBit_odd_big x h; omega
+
+theorem crcBits_back : ∀ (n : Nat) (x : UInt32), (crcBits n x).toNat * 2 ^ n < 4294967296 → x.toNat = 2 ^ n * (crcBits n x).toNat := by
+  intro n
+  induction n with
+  | zero => intro x _; simp [crcBits]
+  | succ n ih =>
+    intro x h
+    simp only [crcBits] at h ⊢
+    generalize hv : (crcBits n (crcBit x)).toNat = v at h ⊢
+    have hp : 2 ^ (n + 1) = 2 * 2 ^ n := by rw [Nat.pow_succ]; omega
+    have hm : v * (2 * 2 ^ n) = 2 * (v * 2 ^ n) := by rw [Nat.mul_left_comm]
+    rw [hp, hm] at h
+    have h1 : (crcBits n (crcBit x)).toNat * 2 ^ n < 4294967296 := by rw [hv]; omega
+    have e1 := ih (crcBit x) h1
+    rw [hv] at e1
+    have hc : 2 ^ n * v = v * 2 ^ n := Nat.mul_comm _ _
+    have e2 := crcBit_back x (by rw [e1, hc]; omega)
+    rw [e2, e1, hp, Nat.mul_assoc]
+
+theorem crcBits_fwd : ∀ (n : Nat) (x : UInt32) (u : Nat), x.toNat = 2 ^ n * u → (crcBits n x).toNat = u := by
+  intro n
+  induction n with
+  | zero => intro x u h; simpa [crcBits] using h
+  | succ n ih =>
+    intro x u h
+    simp only [crcBits]
+    have hp : 2 ^ (n + 1) = 2 * 2 ^ n := by rw [Nat.pow_succ]; omega
+    rw [hp, Nat.mul_assoc] at h
+    apply ih
+    rw [crcBit_even x (by omega)]; omega
+
+theorem crcBits_add (a b : Nat) (x : UInt32) : crcBits (a + b) x = crcBits b (crcBits a x) := by
+  induction a generalizing x with
+  | zero => simp [crcBits]
+  | succ a ih => rw [Nat.succ_add]; simp only [crcBits]; exact ih _
+
+/-- a byte string read as a little-endian number -/
+def leNat : Bytes → Nat
+  | [] => 0
+  | e :: es => e.toNat + 256 * leNat es
+
+theorem leNat_lt (es : Bytes) : leNat es < 256 ^ es.length := by
+  induction es with
+  | nil => simp [leNat]
+  | cons e es ih =>
+    have := e.toNat_lt
+    simp only [leNat, List.length_cons, Nat.pow_succ]
+    omega
+
+theorem leNat_eq_zero (es : Bytes) (h : leNat es = 0) : ∀ e ∈ es, e = 0 := by
+  induction es with
+  | nil => intro e he; cases he
+  | cons x xs ih =>
+    simp only [leNat] at h
+    intro e he
+    rcases List.mem_cons.mp he with rfl | he
+    · apply UInt8.toNat_inj.mp; simp; omega
+    · exact ih (by omega) e he
+
+theorem xor_low (v e : Nat) (he : e < 256) : (256 * v) ^^^ e = 256 * v + e := by
+  apply Nat.eq_of_testBit_eq
+  intro j
+  rw [Nat.testBit_xor]
+  have h8 : (256 : Nat) = 2 ^ 8 := by decide
+  rw [h8, Nat.testBit_two_pow_mul_add _ (by simpa using he), Nat.testBit_two_pow_mul]
+  by_cases hj : j < 8
+  · have h9 : ¬ 8 ≤ j := by omega
+    simp [hj, h9]
+  · have : e.testBit j = false := Nat.testBit_lt_two_pow (by
+      have : 2 ^ 8 ≤ 2 ^ j := Nat.pow_le_pow_right (by decide) (by omega)
+      omega)
+    simp [hj, this]; omega
+
+theorem toUInt32_toNat (e : UInt8) : e.toUInt32.toNat = e.toNat := by simp
+
+/-- backward over whole bytes: a register that reaches zero after at most four more bytes *is* those bytes
+    (read as a little-endian number) -/
+theorem crcReg_back : ∀ (es : Bytes) (d : UInt32), es.length ≤ 4 → crcReg d es = 0 → d.toNat = leNat es := by
+  intro es
+  induction es with
+  | nil => intro d _ h; simp only [crcReg, List.foldl_nil] at h; simp [h, leNat]
+  | cons e es ih =>
+    intro d hl h
+    simp only [crcReg, List.foldl_cons] at h
+    simp only [List.length_cons] at hl
+    have h1 := ih (crcByte d e) (by omega) h
+    have hlt := leNat_lt es
+    have hpow : 256 ^ es.length ≤ 256 ^ 3 := Nat.pow_le_pow_right (by decide) (by omega)
+    unfold crcByte at h1
+    have hb := crcBits_back 8 (d ^^^ e.toUInt32) (by rw [h1]; omega)
+    rw [h1] at hb
+    have hd : d = (d ^^^ e.toUInt32) ^^^ e.toUInt32 := by rw [UInt32.xor_assoc]; simp
+    have : d.toNat = (d ^^^ e.toUInt32).toNat ^^^ e.toUInt32.toNat := by
+      conv => lhs; rw [hd]
+      simp [UInt32.toNat_xor]
+    rw [this, hb, toUInt32_toNat]
+    have := e.toNat_lt
+    simp only [leNat]
+    rw [show (2:Nat) ^ 8 = 256 by decide, xor_low _ _ (by omega)]
+    omega
+
+/-- an error pattern, as the bytes XORed onto consecutive covered bytes starting with the first changed one, is a
+    *burst of at most 32 bits* (in the order the checksum consumes bits: least significant bit of each byte first) when it
+    spans at most five bytes and, with `a` the position of its first bit inside the first byte, nothing lies at or beyond
+    bit `a` of the fifth byte -/
+def Burst32 : Bytes → Prop
+  | [] => True
+  | e0 :: rest => rest.length ≤ 4 ∧ ∃ a, a ≤ 8 ∧ 2 ^ a ∣ e0.toNat ∧ leNat rest < 2 ^ (24 + a)
+
+/-- the heart: starting from a zero difference, a non-zero burst of at most 32 bits leaves a non-zero difference -/
+theorem crcReg_burst_zero (es : Bytes) (hb : Burst32 es) (h : crcReg 0 es = 0) : ∀ e ∈ es, e = 0 := by
+  cases es with
+  | nil => intro e he; cases he
+  | cons e0 rest =>
+    obtain ⟨hl, a, ha, ⟨u, hu⟩, hlt⟩ := hb
+    simp only [crcReg, List.foldl_cons] at h
+    have h1 := crcReg_back rest (crcByte 0 e0) hl h
+    unfold crcByte at h1
+    have hx : (0 : UInt32) ^^^ e0.toUInt32 = e0.toUInt32 := by simp
+    rw [hx] at h1
+    have hsplit : crcBits 8 e0.toUInt32 = crcBits (8 - a) (crcBits a e0.toUInt32) := by
+      rw [← crcBits_add]; congr 1; omega
+    rw [hsplit] at h1
+    have hy := crcBits_fwd a e0.toUInt32 u (by rw [toUInt32_toNat, hu])
+    have hpw : 2 ^ (24 + a) * 2 ^ (8 - a) = 4294967296 := by
+      rw [← Nat.pow_add]; rw [show 24 + a + (8 - a) = 32 by omega]
+    have hbk := crcBits_back (8 - a) (crcBits a e0.toUInt32) (by
+      rw [h1]
+      have hp : 0 < 2 ^ (8 - a) := Nat.two_pow_pos _
+      calc leNat rest * 2 ^ (8 - a) < 2 ^ (24 + a) * 2 ^ (8 - a) := Nat.mul_lt_mul_of_pos_right hlt hp
+        _ = 4294967296 := hpw)
+    rw [h1, hy] at hbk
+    -- u < 2^(8-a) and u = 2^(8-a) * leNat rest
+    have hu8 : u < 2 ^ (8 - a) := by
+      have he := e0.toNat_lt
+      have hp : 0 < 2 ^ a := Nat.two_pow_pos _
+      have : 2 ^ a * 2 ^ (8 - a) = 2 ^ 8 := by rw [← Nat.pow_add]; rw [show a + (8 - a) = 8 by omega]
+      rw [hu] at he
+      have he : 2 ^ a * u < 2 ^ 8 := by simpa using he
+      rw [← this] at he
+      exact Nat.lt_of_mul_lt_mul_left he
+    have hv0 : leNat rest = 0 := by
+      rcases Nat.eq_zero_or_pos (leNat rest) with h0 | hpos
+      · exact h0
+      · have : 2 ^ (8 - a) * 1 ≤ 2 ^ (8 - a) * leNat rest := Nat.mul_le_mul_left _ hpos
+        omega
+    have hu0 : u = 0 := by rw [hbk, hv0]; simp
+    intro e he
+    rcases List.mem_cons.mp he with rfl | he
+    · apply UInt8.toNat_inj.mp; rw [hu, hu0]; simp
+    · exact leNat_eq_zero rest hv0 e he
+
+theorem crcBits_linear (n : Nat) : ∀ s t : UInt32, crcBits n (s ^^^ t) = crcBits n s ^^^ crcBits n t := by
+  induction n with
+  | zero => intro s t; rfl
+  | succ n ih => intro s t; simp only [crcBits]; rw [crcBit_linear, ih]
+
+theorem crcByte_linear (s d : UInt32) (x e : UInt8) : crcByte (s ^^^ d) (x ^^^ e) = crcByte s x ^^^ crcByte d e := by
+  unfold crcByte
+  rw [← crcBits_linear]
+  congr 1
+  have : (x ^^^ e).toUInt32 = x.toUInt32 ^^^ e.toUInt32 := by
+    apply UInt32.toNat_inj.mp
+    simp [UInt32.toNat_xor]
+  rw [this]
+  ac_rfl
+
+/-- XOR an error pattern onto a byte string (the pattern no longer than the string) -/
+def xorOnto : Bytes → Bytes → Bytes
+  | x :: xs, e :: es => (x ^^^ e) :: xorOnto xs es
+  | xs, _ => xs
+
+/-- the register is linear in (state, bytes) -/
+theorem crcReg_linear : ∀ (xs es : Bytes) (s d : UInt32), es.length = xs.length →
+    crcReg (s ^^^ d) (xorOnto xs es) = crcReg s xs ^^^ crcReg d es := by
+  intro xs
+  induction xs with
+  | nil => intro es s d h; cases es with
+    | nil => simp [crcReg, xorOnto]
+    | cons _ _ => simp at h
+  | cons x xs ih =>
+    intro es s d h
+    cases es with
+    | nil => simp at h
+    | cons e es =>
+      simp only [xorOnto, crcReg, List.foldl_cons]
+      rw [crcByte_linear]
+      exact ih es _ _ (by simpa using h)
+
+/-- **every burst of at most 32 bits inside the covered bytes changes the checksum** — at any position of a message of
+    any length: `es` is the error pattern XORed onto the bytes `xs` that follow `pre` -/
+theorem crc32_burst (pre xs post es : Bytes) (hlen : es.length = xs.length) (hb : Burst32 es) (hne : ∃ e ∈ es, e ≠ 0) :
+    crc32 (pre ++ xorOnto xs es ++ post) ≠ crc32 (pre ++ xs ++ post) := by
+  intro heq
+  unfold crc32 at heq
+  have h1 := xor_right_cancel _ _ _ heq
+  simp only [crcReg, List.foldl_append] at h1
+  have h2 := crcReg_injective_state post _ _ h1
+  have hl := crcReg_linear xs es (List.foldl crcByte 4294967295 pre) 0 hlen
+  simp only [UInt32.xor_zero] at hl
+  have h3 : crcReg 0 es = 0 := by
+    have e1 : crcReg (List.foldl crcByte 4294967295 pre) (xorOnto xs es) = crcReg (List.foldl crcByte 4294967295 pre) xs := h2
+    rw [e1] at hl
+    have : crcReg 0 es = crcReg (List.foldl crcByte 4294967295 pre) xs ^^^ (crcReg (List.foldl crcByte 4294967295 pre) xs ^^^ crcReg 0 es) := by
+      rw [← UInt32.xor_assoc]; simp
+    rw [this, ← hl]; simp
+  obtain ⟨e, he, hne⟩ := hne
+  exact hne (crcReg_burst_zero es hb h3 e he)
+
+
+/-- `k` little-endian bytes of a number -/
+def nle : Nat → Nat → Bytes
+  | 0, _ => []
+  | k+1, n => UInt8.ofNat (n % 256) :: nle k (n / 256)
+
+theorem nle_length (k n : Nat) : (nle k n).length = k := by
+  induction k generalizing n with
+  | zero => rfl
+  | succ k ih => simp [nle, ih]
+
+theorem leNat_nle (k n : Nat) : leNat (nle k n) = n % 256 ^ k := by
+  induction k generalizing n with
+  | zero => simp [nle, leNat, Nat.mod_one]
+  | succ k ih =>
+    simp only [nle, leNat, ih]
+    have : (UInt8.ofNat (n % 256)).toNat = n % 256 := by simp [UInt8.toNat_ofNat']
+    rw [this, Nat.pow_succ, Nat.mul_comm (256 ^ k) 256, Nat.mod_mul]
+
+/-- the bit-level reading of `Burst32`: any pattern of at most 32 bits `B`, starting at any bit `a` of a byte, laid over
+    five bytes, is one -/
+theorem burst32_of_bits (B a : Nat) (hB : B < 2 ^ 32) (ha : a < 8) : Burst32 (nle 5 (B * 2 ^ a)) := by
+  show Burst32 (UInt8.ofNat (B * 2 ^ a % 256) :: nle 4 (B * 2 ^ a / 256))
+  refine ⟨by rw [nle_length]; omega, a, by omega, ?_, ?_⟩
+  · have : (UInt8.ofNat (B * 2 ^ a % 256)).toNat = B * 2 ^ a % 256 := by simp [UInt8.toNat_ofNat']
+    rw [this]
+    have h256 : (256 : Nat) = 2 ^ a * 2 ^ (8 - a) := by rw [← Nat.pow_add, show a + (8 - a) = 8 by omega]
+    apply (Nat.dvd_mod_iff (by rw [h256]; exact Nat.dvd_mul_right _ _)).mpr
+    exact Nat.dvd_mul_left _ _
+  · rw [leNat_nle]
+    apply Nat.lt_of_le_of_lt (Nat.mod_le _ _)
+    apply Nat.div_lt_of_lt_mul
+    have : 256 * 2 ^ (24 + a) = 2 ^ 32 * 2 ^ a := by
+      rw [show (256 : Nat) = 2 ^ 8 by decide, ← Nat.pow_add, ← Nat.pow_add]; congr 1; omega
+    rw [this]
+    exact Nat.mul_lt_mul_of_pos_right hB (Nat.two_pow_pos a)
+
 end Kafka
